@@ -14,7 +14,7 @@ class C03(OptCheck):
     technique = "Coq proof: the result value of every option kind is the first available of [command line; non-empty bound environment value; default], provided iff command line or environment (on the spec's assignment, transferred by refinement) + exhaustive matrix differential run"
     level_text = "Theorems on the spec's assignment (ranking clauses for the three kinds, required-missing iff, provided iff command line or environment) transferred to the parser by parse_refines; the full 96-cell matrix x 38 environment strings is run differentially in both tiers"
     level_note = "trusted: Coq kernel; ExtrOcamlBasic extraction + OCaml; the differential harness (generators, C++ driver through the public API under ASan/UBSan, canonical observation lines); gen/tr_vocab.py for C11. Theorem hypotheses: wf_decl (names non-empty, no '=', not starting with '-', pairwise distinct; letters neither '-' nor '='), no_clash (known finding K1: no toggle foo next to anything called no-foo), aligned state (every reachable state is: C14_reachable_aligned). Modelled, not verified: std::map name order, std::multiset::count on letters, std::getline at ';', getenv, object lifetimes, int overflow of counts (model uses Z), operator>> for typed access (exercised with as<long> on decimal texts only). The tie model=code is bounded-exhaustive + sampled, not proved"
-    rule = ("core stream + the full matrix {given on the command line or not} x {environment variable unbound, unset, set empty, set to each of "
+    rule = ("core stream (exhaustive short vectors over declaration-relative tokens for 12 declaration shapes; random vectors, random declarations and environments; 'steps' histories on ONE long-lived parser object — several calls, environment changes, further declarations, move construction, move assignment from a differently declared parser — each call also made on a freshly built identical parser; declarations spread over named groups in a hash-derived order) + the full matrix {given on the command line or not} x {environment variable unbound, unset, set empty, set to each of "
             "38 strings (dash-led, with '=' and ';', empty pieces, vocabulary words and near misses)} x {default declared or not} x {optional "
             "or required} x {option, multi-option, toggle}; non-trivial = environment bound or something given; distinct = distinct case line")
 
